@@ -65,7 +65,12 @@ S_IMP1 = ('<p tal:define="m import: os.path">${m.__name__} '
           '${y()}${name}</p>')
 S_IMP2 = ('<p tal:define="m import: sys.path">${type(m).__name__} ${y()}${name}'
           '<b tal:define="global leak name" tal:content="leak">x</b></p>')
-STRINGS = {"imp1": S_IMP1, "imp2": S_IMP2, "global": S_GLOBAL, "macro": S_MACRO, "code": S_CODE,
+S_GMACRO = (
+    '<div tal:define="global g name"><p metal:define-macro="m">M-${name}${y()}</p>'
+    '<span metal:use-macro="template.macros[\'m\']">x</span>${y()}<b>${g}</b>'
+    '<i tal:define="global h items[0]" tal:content="h">x</i>'
+    '<span metal:use-macro="template.macros[\'m\']">x</span><u>${h}-${g}</u></div>')
+STRINGS = {"gmacro": S_GMACRO, "imp1": S_IMP1, "imp2": S_IMP2, "global": S_GLOBAL, "macro": S_MACRO, "code": S_CODE,
            "i18n": S_I18N, "nested": S_NESTED}
 
 F_LIB = (
